@@ -13,7 +13,8 @@ def StepRes (w : World) (s : Shape) (v : Val) (π : List Step) (t : Shape) (u : 
       ∧ r.1.a.levels = w.a.levels ∧ r.1.a.base = w.a.base ∧ r.1.a.mem.orig = w.a.mem.orig ∧ r.1.b = w.b
       ∧ r.1.a.finished = w.a.finished ∧ r.1.a.dead = w.a.dead
       ∧ ((∃ r', Spec.applyNode t u op = .ok (u', r') ∧ res = .ok r' ∧ v' = subst s v π u')
-         ∨ (∃ e, Spec.applyNode t u op = .error e ∧ res = .error e ∧ v' = v ∧ u' = u))
+         ∨ (∃ e, Spec.applyNode t u op = .error e ∧ res = .error e ∧ v' = v ∧ u' = u)
+         ∨ (simpleOp op = false ∧ v' = subst s v π u'))
 
 theorem srcOf_other (t : Shape) (b : Nat) (op : Op) (m : Mem) (h2 : ∀ kw e, t ≠ .umap kw e) : srcOf t b op m = b := by
   unfold srcOf
@@ -32,12 +33,12 @@ theorem pctx_after {w : World} {s : Shape} {v v' : Val} (c : PCtx w .A s v) (m' 
   have hb0 := c.big
   have hf0 := c.far
   simp only [World.get] at hb0 hf0 this
-  refine ⟨g', c.ok, c.nd, ?_, ?_, ownsOwn_A _, ?_, ?_⟩
+  refine ⟨g', c.ok, c.nd, ?_, ?_, ownsOwn_A _, ⟨?_, ?_⟩⟩
   · simpa [World.set, World.get] using hb
   · simp only [World.set, World.get]
     exact ⟨by rw [hr]; exact this.noRefuse, by rw [ho]; exact this.small, by rw [hb, ho]; exact hroom⟩
-  · simp only [World.set, World.get]; rw [ho]; exact hb0
   · simp only [World.set, World.get]; rw [ho]; exact hf0
+  · simp only [World.set, World.get]; rw [ho]; exact hb0
 
 
 /-- A successful op other than `set_data_inner` on a struct / enum / … node (`touch`, `write` of the sized
@@ -196,7 +197,7 @@ theorem opAt_hon_plain {w : World} {s : Shape} {v : Val} (c : PCtx w .A s v) (π
           rcases hrun R1 t1 hp1 hT with ⟨e', hspec, h, hre⟩ | ⟨u', r', m1, hspec, heq2, _⟩
           · cases h
             simp only [hre, Bool.false_eq_true, if_false, StepRes]
-            refine ⟨v, u, t1, ?_, hres, ?_, ?_, rfl, rfl, rfl, rfl, rfl, rfl, Or.inr ⟨_, hspec, rfl, rfl, rfl⟩⟩
+            refine ⟨v, u, t1, ?_, hres, ?_, ?_, rfl, rfl, rfl, rfl, rfl, rfl, Or.inr (Or.inl ⟨_, hspec, rfl, rfl, rfl⟩)⟩
             · exact pctx_after c w.a.mem R1 c.good hbytes rfl rfl (by rw [← hbytes]; exact hfit)
             · simpa [World.set, World.get] using hp1
             · simpa [World.set, World.get] using hT
